@@ -228,6 +228,12 @@ func (r *run) capture(c fiber.Ctx, cs Case, probe bool) {
 			r.wrongSent = append(r.wrongSent, fmt.Sprintf("%s: got %q, sent %q", cp.family, cp.orig, cp.sent))
 		}
 	}
+	for _, cp := range append(append([]capt{}, r.ehCaps...), r.preCaps...) {
+		// what the error handler (for the unrouted request) and the middleware read is what was sent, too
+		if cp.sent != "" && cp.orig != cp.sent {
+			r.wrongSent = append(r.wrongSent, fmt.Sprintf("%s: got %q, sent %q", cp.family, cp.orig, cp.sent))
+		}
+	}
 	r.caps = append(append(append([]capt{}, r.ehCaps...), r.preCaps...), caps...)
 }
 
@@ -423,7 +429,9 @@ func word(t *rapid.T, label string, lo, hi int) string {
 }
 
 func genCase(t *rapid.T) Case {
-	cs := Case{ID: word(t, "id", 3, 9), Rest: word(t, "rest", 3, 9), QName: word(t, "qn", 3, 9), T1: word(t, "t1", 2, 5), T2: word(t, "t2", 2, 5),
+	// (path values in mixed case: what the accessors hand out keeps the spelling of the request)
+	mixed := func(label string) string { return rapid.StringMatching("[a-zA-Z]{3,9}").Draw(t, label) }
+	cs := Case{ID: mixed("id"), Rest: mixed("rest"), QName: word(t, "qn", 3, 9), T1: word(t, "t1", 2, 5), T2: word(t, "t2", 2, 5),
 		H1: word(t, "h1", 2, 5), H2: word(t, "h2", 2, 5), XName: word(t, "xn", 3, 9), Ck: word(t, "ck", 3, 9), FName: word(t, "fn", 3, 9), JSONBody: rapid.IntRange(0, 3).Draw(t, "json") == 0,
 		CEnc: rapid.SampledFrom([]string{"", "", "", "identity", "utf-8", "compress"}).Draw(t, "cenc"),
 		Pre:  rapid.SampledFrom([]string{"", "", "mw-next", "mw-params", "mw-params"}).Draw(t, "pre"), Rewrite: rapid.IntRange(0, 3).Draw(t, "rewrite") == 0, Miss: rapid.IntRange(0, 2).Draw(t, "miss") == 0, Multi: rapid.Bool().Draw(t, "multi"), After: rapid.Bool().Draw(t, "after"), Proto: rapid.Bool().Draw(t, "proto"), Rng: rapid.Bool().Draw(t, "rng")}
